@@ -10,6 +10,9 @@ from common import (CASES_HEADER, VERIF, Check, coq_eval_parallel, parse_coq_lis
 
 IMPORTS = CASES_HEADER + "From PV Require Import C14.ReprModel C14.SurdRun.\n"
 HBARS = ["1/2", "1", "2", "37/10"]
+# the search spans every order of magnitude the implementation is meant to accept (all hbar>0);
+# reference value: hbar=2 (the default, the only one the test-suite uses)
+HBARS_WIDE = ["2", "1.054571817e-34", "1e-18", "1e-6", "1e-2", "1/2", "1", "37/10", "1e3", "1e8"]
 CORPUS = os.path.join(VERIF, "harness", "corpus", "c14.jsonl")
 
 
@@ -107,10 +110,15 @@ def occupations(rng, d, total_max):
 
 
 def make_case(rng, cid, d, tie, search, consistency=False, strength="strong", displaced=None,
-              mixed=None, fock_cutoff=None, hbars=HBARS):
+              mixed=None, fock_cutoff=None, hbars=HBARS, descending=False):
     st = rand_state(rng, d, strength, displaced, mixed)
     nm = rng.randint(1, d)
     modes = rng.sample(range(d), nm)  # any order
+    if descending and d >= 2:
+        nm = max(nm, 2)
+        modes = sorted(rng.sample(range(d), nm), reverse=True)
+        if nm >= 3:
+            modes[0], modes[1] = modes[1], modes[0]  # neither ascending nor descending
     t = rng.choice([F(1, 2), F(1, 3), F(-2, 3), F(3, 4), F(2), F(-1, 5)])
     strings = []
     for L in (1, 2, 2, 3, 4):
@@ -314,11 +322,12 @@ def run(chk: Check, only_cases=None):
         for d, n in plan:
             for k in range(n):
                 add(d=d, tie=True, search=True, consistency=(d >= 2),
-                    displaced=(None if k else True), mixed=(None if k != 1 else True))
+                    displaced=(None if k else True), mixed=(None if k != 1 else True), descending=(k == 0))
         # more search-only states (no Coq run): pure/mixed, displaced/not
         for d, n in ([(1, 2), (2, 4), (3, 3), (4, 1)] if not T else [(1, 12), (2, 20), (3, 14), (4, 6)]):
             for k in range(n):
-                add(d=d, tie=False, search=True, consistency=(d >= 2), displaced=(k % 2 == 0), mixed=(k % 3 != 0))
+                add(d=d, tie=False, search=True, consistency=(d >= 2), displaced=(k % 2 == 0), mixed=(k % 3 != 0),
+                    hbars=HBARS_WIDE, descending=(k == 0))
         # low-energy states with a Fock-space reference for the phase-shifter / parity value
         for d, cut, n in ([(1, 14, 1), (2, 12, 2)] if not T else [(1, 20, 2), (2, 14, 4), (3, 7, 2)]):
             for k in range(n):
@@ -423,12 +432,14 @@ def run(chk: Check, only_cases=None):
     # ------------------------------------------------------------------ search 1: hbar invariance on the implementation
     n_eval = 0
     n_states = 0
+    n_hb_pairs = 0
     for c in cases:
         if not c.get("search"):
             continue
         res = by_id[c["id"]]["per_hbar"]
         ref = next((x for x in res if x["hbar"] == "2"), res[0])
         n_states += 1
+        n_hb_pairs += len(res) - 1
         for r in res:
             for name, val in r["obs"].items():
                 n_eval += 1
@@ -439,6 +450,12 @@ def run(chk: Check, only_cases=None):
                 if r is ref:
                     continue
                 tol = 1e-8 if name not in ("fock_probabilities", "density_matrix", "particle", "wigner_scaled") else 1e-7
+                if name == "fidelity":
+                    # F_0 contains sqrt(w^2-1) with symplectic eigenvalues w that equal 1 for pure
+                    # states: rounding of order 1e-16 in w becomes 1e-8 in the result (F(a,b) and
+                    # F(b,a) at the same hbar already differ by that much), so 1e-6 is the float64
+                    # resolution of this formula
+                    tol = 1e-6
                 if not all_close(ref["obs"][name], val, tol):
                     viol.add("C14:%s:hbar-dependent" % SITE.get(name, name),
                                   "%s of the same ladder moments differs between hbar=%s and hbar=%s" % (name, ref["hbar"], r["hbar"]),
@@ -446,8 +463,58 @@ def run(chk: Check, only_cases=None):
                                    "hbar_ref": ref["hbar"], "value_ref": ref["obs"][name][:6],
                                    "hbar": r["hbar"], "value": val[:6],
                                    "call": "GaussianState with _m,_C,_G as given under Config(hbar=...)"})
-    chk.stream("every observable of the same ladder moments at four hbar (normalised quadratures, photon statistics, purity, fidelity, threshold/particle probabilities, density matrix, parity, phase shifter, string moments, Wigner density, quadratic expectation)",
-               n_eval, n_states * 3, kind="search",
+    # ------------------------------------------------------------------ search 1b: reduced / marginals, any mode order
+    n_red = 0
+    for c in cases:
+        if not (c.get("search") and c["d"] >= 2):
+            continue
+        d, modes = c["d"], c["modes"]
+        n = len(modes)
+        asc = modes == sorted(modes)
+        for r in by_id[c["id"]]["per_hbar"]:
+            q = r.get("reduced_direct")
+            if q is None:
+                continue
+            n_red += 1
+            fm, fc = q["full_xpxp_mean"], np.array(q["full_xpxp_cov"]).reshape(2 * d, 2 * d)
+            sel = [2 * a + e for a in modes for e in (0, 1)]
+            exp = [fm[i] for i in sel] + [float(fc[i, j]) for i in sel for j in sel]
+            cd = q["full_complex_disp"]
+            cc = q["full_complex_cov"]
+            csel = list(modes) + [d + a for a in modes]
+            cexp = [x for i in csel for x in cd[2 * i:2 * i + 2]] + \
+                   [x for i in csel for j in csel for x in cc[2 * (2 * d * i + j):2 * (2 * d * i + j) + 2]]
+            for name, e_, g_ in (("xpxp", exp, q["reduced_xpxp"]), ("complex", cexp, q["reduced_complex"])):
+                scale = max([abs(x) for x in e_] + [1e-300])
+                if len(e_) != len(g_) or any(abs(x - y) > 1e-12 * scale for x, y in zip(e_, g_)):
+                    viol.add("C14:reduced:mode-order" if not asc else "C14:reduced:ascending-modes",
+                             "reduced(modes) does not hold the %s moments of the listed modes in the listed order" % name,
+                             {"case_id": c["id"], "d": d, "hbar": r["hbar"], "modes": modes, "m": c["m"], "C": c["C"], "G": c["G"],
+                              "expected_from_full_state": e_[:2 * n], "got": g_[:2 * n],
+                              "call": "GaussianState(_m,_C,_G).reduced(%s).%s_* vs the same entries of the full state" % (tuple(modes), name)})
+            if abs(q["mpn_modes"] - sum(q["mpn_each"])) > 1e-9 * (1 + abs(q["mpn_modes"])):
+                viol.add("C14:mean_photon_number:modes", "mean_photon_number(modes) is not the sum over the listed modes",
+                         {"case_id": c["id"], "d": d, "hbar": r["hbar"], "modes": modes, "got": q["mpn_modes"], "each": q["mpn_each"]})
+            if "marginal" in q:
+                n_red += 1
+                a_, b_ = q["marginal"], q["marginal_reversed"]
+                if isinstance(a_, dict) or isinstance(b_, dict):
+                    viol.add("C14:get_marginal_fock_probabilities:raises", "marginal probabilities raise",
+                             {"case_id": c["id"], "modes": modes, "error": a_ if isinstance(a_, dict) else b_})
+                else:
+                    rev = {tuple(k[::-1]): v for k, v in b_}
+                    bad = [(k, v, rev.get(tuple(k))) for k, v in a_
+                           if rev.get(tuple(k)) is None or abs(v - rev[tuple(k)]) > 1e-9]
+                    if bad:
+                        viol.add("C14:get_marginal_fock_probabilities:mode-order",
+                                 "p_modes(n) differs from p_reversed-modes(reversed n): the marginal ignores the order of the modes",
+                                 {"case_id": c["id"], "d": d, "hbar": r["hbar"], "modes": modes, "m": c["m"], "C": c["C"], "G": c["G"],
+                                  "occupation": bad[0][0], "p_modes": bad[0][1], "p_reversed_modes_at_reversed_occupation": bad[0][2]})
+    chk.stream("reduced(modes) / mean_photon_number(modes) / marginal Fock probabilities against the full state, mode tuples in any order",
+               n_red, n_red, kind="search", samples=[{"modes": c["modes"], "d": c["d"]} for c in cases if c.get("search") and c["d"] >= 2][:3])
+
+    chk.stream("every observable of the same ladder moments at every hbar of the case, 4 values for tied states, 10 values from 1.05e-34 to 1e8 otherwise, each compared with hbar=2 (normalised quadratures, photon statistics, purity, fidelity, threshold/particle probabilities, density matrix, parity, phase shifter, string moments, Wigner density, quadratic expectation)",
+               n_eval, n_hb_pairs, kind="search",
                samples=[{"id": c["id"], "d": c["d"], "mixed": c["mixed"], "displaced": c["displaced"]} for c in cases if c.get("search")][:2])
 
     # ------------------------------------------------------------------ search 2: representations against each other
